@@ -453,8 +453,9 @@ pub fn print_rule(r: &RuleSequence, st: &Style) -> Option<String> {
         if !ms.is_empty() {
             // a lone plain year directly followed by a monthday selector is read by the grammar as the
             // year *of* that monthday range (documented ambiguity): not expressible as two selectors
+            // — the two-selector value is written with the year as a range `Y-Y`
             if ds.year.len() == 1 && ds.year[0].step == 1 && ds.year[0].range.start() == ds.year[0].range.end() && !wide.contains('-') && !wide.contains('+') {
-                return None;
+                wide = format!("{0}-{0}", **ds.year[0].range.start());
             }
             // a year selector directly followed by a monthday range that starts with its own year
             // glues two digit strings together (`2020-2030/3` + `2020Dec`): not expressible
